@@ -121,7 +121,7 @@ pub open spec fn plain_payload(w: Seq<u8>, encoding: Option<CompressionEncoding>
 
 def build():
     u = Unit('decode', ['C01', 'C05', 'C06', 'C07'])
-    u.prelude('base.rs', 'bytes.rs')
+    u.prelude('base.rs', 'wire.rs', 'bytes.rs')
     u.item('tonic/src/status.rs', 'enum', 'Code', derives='Clone, Copy, PartialEq, Eq')
     u.item('tonic/src/codec/compression.rs', 'enum', 'CompressionEncoding', derives='Clone, Copy, PartialEq, Eq')
     u.prelude('codec.rs')
@@ -145,7 +145,7 @@ def build():
          requires=['old(self).wf()', '!(old(self).state is Error)'],
          body_start='        broadcast use lemma_hdr_prefix, lemma_hdr_rebuild;',
          hints=[('before', 'let decode_buf = if let Some(encoding) = compression {',
-                 'proof { lemma_hdr_prefix(flag_of(compression), len as int, self.buf@); assert((hdr(flag_of(compression), len as int) + self.buf@).subrange(5, 5 + len as int) =~= self.buf@.take(len as int)); }')],
+                 'proof { lemma_hdr_prefix(flag_of(compression), len as int, self.buf@); lemma_hdr_subrange(flag_of(compression), len as int, self.buf@, len as int); }')],
          ensures=[
              Clause('N1_need_more_changes_nothing',
                     f'''r matches Ok(None) ==> final(self).wf() && final(self).unparsed() == {unp}
